@@ -109,6 +109,9 @@ def slice(ctx: fw.Ctx) -> fw.Outcome:
                 rng.shuffle(tr_.groups)
                 for g_ in tr_.groups:
                     g_.forced = False  # a forced note must not come first
+        if rng.random() < 0.3 and src.tracks and src.tracks[0].groups:
+            # anchors sitting on note ticks (likely bounds), with times of their own: a tick bound still means the tempo-map time
+            src.anchors = sorted({(g_.tick, rng.choice([0, 10, rng.randint(0, 10**7)])) for g_ in rng.sample(src.tracks[0].groups, min(3, len(src.tracks[0].groups)))})
         R = gen.render(src, rng, prof, garbage=False)
         c, e, _ = impl.parse(R.text)
         if c is None:
